@@ -552,6 +552,19 @@ impl Model {
         }
     }
 
+    /// Is the node a map_with_old node, possibly seen through a chain of map_ref views?
+    fn view_root_is_map_with_old(&self, src: Hid) -> bool {
+        let mut cur = src;
+        for _ in 0..64 {
+            match &self.nodes[cur].rk {
+                RK::MapWithOld { .. } => return true,
+                RK::MapRef { src, .. } | RK::MapRefQ { src } => cur = *src,
+                _ => return false,
+            }
+        }
+        false
+    }
+
     /// Did the input of a map_ref (looking through further map_refs) ever carry a cutoff that
     /// can suppress unequal values?
     fn view_input_had_noneq_cutoff(&self, src: Hid) -> bool {
@@ -668,7 +681,8 @@ impl Model {
                         // a map_with_old input never tells its dependants what it held before, so the
                         // view cannot consult its cutoff and always reports the change (upstream's
                         // documented trade-off, tests/basic.rs::map_with_old_map_ref)
-                        _ if matches!(s.rk, RK::MapWithOld { .. }) => true,
+                        // (also through a chain of views)
+                        _ if self.view_root_is_map_with_old(*src) => true,
                         (Some(a), Some(b)) => !self.nodes[h].cutoff.cuts(a, b),
                         _ => true,
                     };
